@@ -160,20 +160,27 @@ func structuredMappings(r *Rng, sl, nl int) []uint16 {
 }
 
 type secSpec struct {
-	lo, co, sl, nl int
-	raw            []uint16
+	lo, co, sl, nl     int
+	hostileS, hostileN uint64
+	raw                []uint16
 }
 
-func strList(n int, p string) string {
+// JSON array of n entries; entries are strings except where hostile (non-string entries must
+// still count: the mapping decoder validates indices against the raw array length)
+func strList(n int, p string, hostile uint64) string {
 	var xs []string
 	for i := 0; i < n; i++ {
-		xs = append(xs, fmt.Sprintf("\"%s%d\"", p, i))
+		if hostile>>uint(i)&1 == 1 {
+			xs = append(xs, []string{"null", "1", "{}", "[]", "true"}[(hostile>>8+uint64(i))%5])
+		} else {
+			xs = append(xs, fmt.Sprintf("\"%s%d\"", p, i))
+		}
 	}
 	return "[" + strings.Join(xs, ",") + "]"
 }
 
 func (s secSpec) json() string {
-	return fmt.Sprintf(`{"version":3,"sources":%s,"names":%s,"mappings":%s}`, strList(s.sl, "s"), strList(s.nl, "n"), jsonString(s.raw))
+	return fmt.Sprintf(`{"version":3,"sources":%s,"names":%s,"mappings":%s}`, strList(s.sl, "s", s.hostileS), strList(s.nl, "n", s.hostileN), jsonString(s.raw))
 }
 
 var badMappingsRe = regexp.MustCompile(`^Bad "mappings" data in source map at character (\d+): (.*)$`)
@@ -261,6 +268,12 @@ func runDecoders2(r *Rng, n int, st *Stats, cf *CoqFile) {
 			}
 			if r.Chance(5) {
 				s.raw = nil
+			}
+			if r.Chance(25) {
+				s.hostileN = r.U64()
+			}
+			if r.Chance(15) {
+				s.hostileS = r.U64()
 			}
 			secs = append(secs, s)
 		}
